@@ -20,10 +20,10 @@ class C04(Prop):
     level = "fault_enumeration"
     title = "A query's answer does not depend on what was evaluated before it"
     campaigns = {
-        "quick": [("faultfree", 1600, 40), ("faults", 4000, 60),
+        "quick": [("faultfree", 4000, 40), ("faults", 12000, 60), ("enumerated", 600, 60),
                   ("known:disjunction+for_all", 320, 30), ("known:disjunction+flatten", 320, 30),
                   ("known:disjunction+nested_query", 320, 30), ("known:disjunction_over_different_variables", 320, 30)],
-        "thorough": [("faultfree", 60000, 600), ("faults", 200000, 1500),
+        "thorough": [("faultfree", 60000, 600), ("faults", 200000, 1500), ("enumerated", 12000, 1500),
                      ("known:disjunction+for_all", 4000, 300), ("known:disjunction+flatten", 4000, 300),
                      ("known:disjunction+nested_query", 8000, 300), ("known:disjunction_over_different_variables", 20000, 300)],
     }
@@ -61,6 +61,8 @@ class C04(Prop):
                 t["quant"] = "the"
                 pool["queries"].append(t)
         the_ids = [q["id"] for q in pool["queries"] if q["quant"] == "the"]
+        if campaign == "enumerated":
+            return {"world": world, "pool": pool, "ops": [], "cfg": cfg, "enumerate": rng.choice(an_ids)}
         ops = []
         n_ops = rng.randint(1, 8 if tier == "quick" else 12)
         slots = []
@@ -107,6 +109,8 @@ class C04(Prop):
 
     # ------------------------------------------------------------------ execution
     def execute(self, plan):
+        if plan.get("enumerate"):
+            return self._execute_enumerated(plan)
         res = self._execute(plan)
         v = [x for x in res.violations if x.oracle == "dup-domain-multiset"]
         if v and not plan.get("_control"):
@@ -123,6 +127,47 @@ class C04(Prop):
                 res.violations = [x for x in res.violations if x.oracle != "dup-domain-multiset"]
                 res.counters["probe:multiset_diff_not_dup_specific"] += 1
         return res
+
+    def _execute_enumerated(self, plan):
+        """Crash-point enumeration for one sampled program: a dry run measures R rows and N user callbacks of the
+        target query; then EVERY k in 0..R (cancel; orphan dropped at once; orphan parked and collected after the
+        next evaluation) and EVERY j in 1..N (j-th user callback raises) is executed, each followed by two probes."""
+        import hashlib
+        q = plan["enumerate"]
+        base = {k: v for k, v in plan.items() if k != "enumerate"}
+        dry = dict(base, ops=[["full", q]])
+        r0 = self._execute(dry)
+        total = Result()
+        total.digest = r0.digest
+        if r0.skipped or r0.violations:
+            return r0
+        R = r0.counters.get("rows_last_full", 0)
+        N = r0.counters.get("callbacks_last_full", 0)
+        histories = []
+        for k in range(0, min(R, 12) + 1):
+            histories.append([["take", q, k, "close"], ["probe", q], ["probe", q]])
+            histories.append([["take", q, k, "s0"], ["drop", "s0"], ["probe", q], ["probe", q]])
+            histories.append([["take", q, k, "s0"], ["park", "s0"], ["full", q], ["collect"], ["probe", q], ["probe", q]])
+        for j in range(1, min(N, 60) + 1):
+            histories.append([["fault", q, j], ["probe", q], ["probe", q]])
+        digests = [r0.digest]
+        sigs = []
+        for ops in histories:
+            r = self._execute(dict(base, ops=ops, campaign="faults"))
+            total.counters.update(r.counters)
+            total.counters["enumerated_crash_points"] += 1
+            total.steps += r.steps
+            digests.append(r.digest)
+            sigs.append(r.signature)
+            if r.violations:
+                total.violations = r.violations
+                total.replan = dict(base, ops=ops)
+                break
+        total.signature = tuple(sigs)
+        total.nontrivial = (R > 0 or N > 0) and total.counters.get("probe:judged", 0) > 0
+        total.digest = hashlib.sha256("".join(digests).encode()).hexdigest()
+        total.counters["probe:enumerated_programs"] += 1
+        return total
 
     def _execute(self, plan):
         sim = Sim("C04")
@@ -156,7 +201,10 @@ class C04(Prop):
                 held = [(t, e) for (t, e) in held if t > i]
                 with op_watchdog(20):
                     if kind == "full":
+                        f0 = sim.faultable_total
                         out = run.full(op[1])
+                        sim.counters["rows_last_full"] = len(out.rows)
+                        sim.counters["callbacks_last_full"] = sim.faultable_total - f0
                         sig.append(("full", out.end, len(out.rows) > 0))
                         if out.end == "done":
                             completed.add(op[1])
